@@ -159,17 +159,21 @@ mod verif_c11 {
         kani::cover!(b > a);
         kani::cover!(b < a);
     }
-    /// tiny windows at two fixed counter offsets (cheap: most bits of the 128-bit division are
-    /// constants); together they also pin translation invariance for these offsets
+    /// tiny windows at two fixed counter offsets and three fixed frequencies (cheap: the divisor and
+    /// most bits of the dividend of the 128-bit division are constants); together they also pin
+    /// translation invariance for these offsets
     fn tiny(base: u64) {
-        let a: u8 = kani::any(); let b: u8 = kani::any(); let f: u8 = kani::any();
-        kani::assume(f != 0);
-        let (a, b, f) = (base + a as u64, base + b as u64, f as u64);
+        let a: u8 = kani::any(); let b: u8 = kani::any();
+        let f: u64 = match kani::any::<u8>() % 3 { 0 => 1, 1 => 3, _ => 2_400_000_000 };
+        let (a, b) = (base + a as u64, base + b as u64);
         let d = TscTimestamp { value: b }.duration_since(TscTimestamp { value: a }, NonZeroU64::new(f).unwrap());
         if b >= a {
-            // (b - a) < 256 and f < 256: the exact quotient fits u64 arithmetic
-            let n: u64 = (b - a) * 1_000_000_000_000u64;
-            assert!(d.picos == (n / f) as u128);
+            let n = (b - a) as u128 * 1_000_000_000_000u128;
+            let q = d.picos;
+            let fw = f as u128;
+            assert!(q <= n);
+            assert!(q * fw <= n);
+            assert!(n - q * fw < fw);
         } else {
             assert!(d.picos == 0);
         }
@@ -241,8 +245,8 @@ def build(S: Sources) -> Unit:
             KaniHarness("verif_c11::tsc_duration_since", "complete", covers="TscTimestamp::duration_since", tier="thorough"),
             KaniHarness("verif_c11::tsc_duration_since_small", "bounded", bound="readings within 2^16 of an arbitrary base, frequency < 2^16",
                         covers="TscTimestamp::duration_since (counterexample source in the quick tier)"),
-            KaniHarness("verif_c11::tsc_tiny_base0", "bounded", bound="readings 0..255, frequency 1..255", covers="TscTimestamp::duration_since (cheap counterexample source)"),
-            KaniHarness("verif_c11::tsc_tiny_base40", "bounded", bound="readings 2^40 + 0..255, frequency 1..255", covers="TscTimestamp::duration_since (cheap counterexample source, translation)"),
+            KaniHarness("verif_c11::tsc_tiny_base0", "bounded", bound="readings 0..255, frequency one of 1 Hz, 3 Hz, 2.4 GHz", covers="TscTimestamp::duration_since (cheap counterexample source)"),
+            KaniHarness("verif_c11::tsc_tiny_base40", "bounded", bound="readings 2^40 + 0..255, frequency one of 1 Hz, 3 Hz, 2.4 GHz", covers="TscTimestamp::duration_since (cheap counterexample source, translation)"),
             KaniHarness("verif_c11::fine_duration_default", "complete", covers="trusted spec of derived FineDuration::default"),
             KaniHarness("verif_c11_ts::timestamp_duration_since_tsc_arm", "complete", covers="Timestamp::duration_since (Tsc arm dispatch)"),
             KaniHarness("verif_c11_fd::from_duration_exact", "complete", covers="<FineDuration as From<Duration>>::from"),
